@@ -118,6 +118,11 @@ for mut, what in [("skip_last_col", "element-wise row move starting one column s
     r = tlc("simple/MatrixGrow", "MatrixGrowNeg_%s.cfg" % mut, workers=2, timeout=300)
     expect("MatrixGrow mutant %s violates Laid: %s" % (mut, what), any("Invariant Laid is violated" in e for e in r.errors), str(r.errors[:1]))
 
+for mut, what in [("fut_first", "reorder placing the future cone of b before the past cone of a (what the code comment says)"),
+                  ("no_rename", "DiGraph removal not renaming the moved node in the order map (shipped before 6c40ef3)")]:
+    r = tlc("graph/AcyclicPK", "MCAcyclicPKNeg_%s.cfg" % mut, workers=4, timeout=300)
+    expect("AcyclicPK mutant %s violates Inv: %s" % (mut, what), any("Invariant Inv is violated" in e for e in r.errors), str(r.errors[:1]))
+
 bad = [r for r in results if not r["ok"]]
 os.makedirs(os.path.join(VERIF, "evidence"), exist_ok=True)
 json.dump({"tests": results, "failed": len(bad)}, open(os.path.join(VERIF, "evidence", "selftest.json"), "w"), indent=1)
